@@ -84,13 +84,28 @@ NOTES = {
  'C05-b1': 'missed at first (a refused duplicate declaration came without a validator); every second AttachDup brings a validator of its own whose call is a violation; caught since',
  'C06-b2': 'missed at first (at most 6 packets per stream); bursts of 257 / 300 (thorough: up to 1000) complete packets in one read; caught since',
  'C10-b2': 'missed at first (the harness face copied what it was handed); the face now remembers the objects handed to send() and reports a buffer that changes afterwards; caught since',
+ 'C18-b1': 'missed at first (sequence numbers below 2^31 only); sequence numbers of every magnitude judged in scaled classes (Svs!HiSeq); caught since',
+ 'C18-b2': 'missed at first (5 nodes); groups of 24 nodes (thorough up to 100), vectors on both sides of 253 octets; caught since',
+ 'C14-b1': 'missed at first (a second certificate of a key never lay on the same chain); TrustChain!ReWorld: re-certified keys, up to 4 fetched certificates; caught since',
+ 'C15-b1': 'missed at first (at most 6 keys per identity); scale histories: one identity with 9..19 (thorough 40) keys; caught since',
+ 'C15-b2': 'missed at first (imported certificates were named after the key they are filed under); Keychain!CertN = 3: cross-filed imports made the default; caught since',
+ 'C13-b1': 'missed at first (signing loops only among rule identifiers); LvsTree!PatternIsOwnSigner / family SharedSign; caught since',
+ 'C13-b2': 'missed at first; family RedefTemp (temporaries local to one definition across redefinitions) and injected constraints on a temporary of another definition; caught since',
+ 'C07-b1': 'missed at first (every input decoded once, well-formed packets first); decoding histories in fresh interpreters (adverse / reversed / shuffled order); caught since',
+ 'C08-b2': 'missed at first (an instance was sized and encoded once); TlvModelLife: in-place changes between sizing and encoding; caught since',
+ 'C16-b1': 'missed at first (instants handed over as astimezone() of a UTC instant); wall-clock reading + fold on DST clocks (CertTimeZone), issuing histories with related datetimes; caught since',
+ 'C17-b2': 'missed at first (no call was ever cancelled); NfdReg!CancelCall (waiting / sleeping with the semaphore / waiting for the reply); caught since',
+ 'C12-b1': 'missed at first; family Stacked (two constraints on one pattern, literal and non-literal options) and Gen._stack; caught since',
+ 'C12-b2': 'missed at first; family Towers (inlining 3-4 deep), names longer than the all-names bound along the chains; caught since',
+ 'C11-b1': 'missed at first (at most 6 rules / 5 named patterns); family Wide (up to 13 rules, 17 named patterns) and Gen._wide; caught since',
+ 'C11-b2': 'missed at first; Towers members whose middle rule has a constrained temporary of its own; caught since',
 }
 # seeded changes that were NOT kept as property-breaking after review
 REJECTED = {
  'C19-h1': 'not a violation under the joint reading of C05 and C19: the change makes the legacy front-end turn a validator that is still running at the Interest deadline into InterestTimeout (with a 100 ms floor) - which is what C05 demands (it repairs the known finding KF-legacy-slow-validator); segment_fetcher then re-requests the segment as for any timeout. C19\'s and C05\'s checks pass on it (C05 without the KNOWN-FINDING line).',
 }
 rows = []
-for d in sorted(glob.glob(ROOT + '/C*-[mnkjhgfedc]*')):
+for d in sorted(glob.glob(ROOT + '/C*-[mnkjhgfedcb]*')):
     sid = os.path.basename(d)
     prop = sid.split('-')[0]
     notes = open(os.path.join(d, 'notes.md')).read() if os.path.exists(os.path.join(d, 'notes.md')) else ''
